@@ -84,6 +84,34 @@ def wfVals (T : Tables) (fold : Str → Str) (t : VT) : List PVal → Bool
      | .text _ => t != .element) && wfVals T fold t rest
 end
 
+/-- one value, in the context of attribute type `t`. -/
+def valWfP (T : Tables) (fold : Str → Str) (t : VT) : PVal → Bool
+  | .null => t == .element
+  | .uuid u => t == .element && uuidOK u
+  | .inline e => t == .element && inlineTypeOK T fold e.type && wfElem T fold e
+  | .text _ => t != .element
+
+theorem wfVals_nil (T : Tables) (fold : Str → Str) (t : VT) : wfVals T fold t [] = true := by
+  rw [wfVals]
+
+theorem wfVals_cons (T : Tables) (fold : Str → Str) (t : VT) (v : PVal) (rest : List PVal) :
+    wfVals T fold t (v :: rest) = (valWfP T fold t v && wfVals T fold t rest) := by
+  cases v <;> rw [wfVals] <;> rfl
+
+theorem wfAttrs_nil (T : Tables) (fold : Str → Str) : wfAttrs T fold [] = true := by
+  rw [wfAttrs]
+
+theorem wfAttrs_cons (T : Tables) (fold : Str → Str) (n : Str) (t : VT) (arr : Bool) (vals : List PVal)
+    (rest : List PAttr) :
+    wfAttrs T fold (.mk n t arr vals :: rest) =
+      (n != nameLit && (arr || vals.length == 1) && wfVals T fold t vals && wfAttrs T fold rest) := by
+  rw [wfAttrs]
+
+theorem wfElem_mk (T : Tables) (fold : Str → Str) (ty nm : Str) (u : Option Str) (attrs : List PAttr) :
+    wfElem T fold (.mk ty nm u attrs) =
+      ((match u with | some u => uuidOK u | none => true) && wfAttrs T fold attrs) := by
+  cases u <;> simp only [wfElem]
+
 def isNls (nl : Toks) : Prop := ∀ t ∈ nl, t.1 = kNEWLINE
 
 theorem skipNl_nls (nl : Toks) (h : isNls nl) (k : Nat) (v : Str) (rest : Toks) (hk : k ≠ kNEWLINE) :
